@@ -41,6 +41,7 @@ Inductive op :=
    last full projection and no factor was assigned after it", "every returned factor is the U of the last SVD for its position" *)
 | DHooi (ik : init_kind) (k : nat) (mask tol_set : bool) (n_iter : nat) (decisions : list bool)
 | DHooiFixed (n_modes n_fixed : nat) (mask tol_set : bool) (n_iter : nat) (decisions : list bool)
+| DHprog (p : hprog)         (* the loop of partial_tucker read off the source: does it satisfy the hypothesis of C08_prog_run_core_projected? *)
 | QCpNorm (R : nat) (w : option (list Q)) (fs scales : list (list Q)) (tol : Q) (wout : list Q) (fout : list (list Q)).
 
 Definition is_frac (s : rspec) : bool := match s with RFrac _ => true | _ => false end.
@@ -106,6 +107,7 @@ Definition run (o : op) : res (list (list nat)) :=
       let t := tucker_fixed_trace nm nf mask tol_set n decisions in
       let inner := hooi_trace InitUser (nm - nf) mask tol_set n decisions in
       Ok [map code t; [if (nf <? nm) && ends_projected inner then 1 else 0]; [if (nf <? nm) && factors_from_svd (nm - nf) inner then 1 else 0]]
+  | DHprog p => Ok [[if prog_ok p then 1 else 0]]
   | DNorm2 d nf tol_set n decisions =>
       let t := trace_run2 d nf tol_set n decisions in
       Ok [[length (updates t)]; [if ends_normalised t then 1 else 0]; [if any_normalise t then 1 else 0]]
